@@ -7,7 +7,7 @@ const PageSize = 4096
 type CrashImage struct {
 	Point   int    // ops[0..Point] have been issued
 	Torn    int    // >=0: the write at Point is torn at this byte (only bytes [0,Torn) of it may be applied)
-	Kind    string // all | none | subset | torn | cut | zero-extend
+	Kind    string // all | none | subset | torn | cut | zero-extend | hole | none-after-revert
 	Subset  uint64 // seed of the block subset (Kind == subset)
 	CutFile string // Kind == cut: file whose length is cut
 	CutLen  int64
@@ -126,6 +126,19 @@ func BuildImage(trace []FOp, img CrashImage, killOnly bool) map[string][]byte {
 			// length reached the full extent but no data block did
 			if extent > int64(len(content)) {
 				content = append(content, make([]byte, extent-int64(len(content)))...)
+			}
+		case img.Kind == "hole":
+			// the write at the crash point reached the disk with its first
+			// and its last page block only; everything before it completely
+			for _, w := range f.pending {
+				first := w.off / PageSize
+				last := (w.off + int64(len(w.data)) - 1) / PageSize
+				if w.seq != img.Point || last-first < 2 {
+					apply(w, w.off, w.off+int64(len(w.data)))
+					continue
+				}
+				apply(w, first*PageSize, (first+1)*PageSize)
+				apply(w, last*PageSize, (last+1)*PageSize)
 			}
 		default: // subset of page blocks
 			for _, w := range f.pending {
